@@ -41,10 +41,11 @@ type EIndex struct{ X, I Expr }
 type ESlice struct{ X, Lo, Hi Expr }
 type ECond struct{ C, A, B Expr }
 type EQuant struct {
-	Forall bool
-	Var    string
-	VarTy  string // optional type name, default int
-	Body   Expr
+	Forall  bool
+	Var     string
+	VarTy   string // optional type name, default int
+	Body    Expr
+	Witness Expr // exists only: instantiation hint, evaluated with the locals visible at the program point
 }
 type EOld struct{ X Expr }
 
@@ -302,7 +303,12 @@ func (ps *sparser) unary() Expr {
 		}
 		ps.expect("::")
 		body := ps.expr(0)
-		return EQuant{Forall: t.text == "forall", Var: v.text, VarTy: vt, Body: body}
+		q := EQuant{Forall: t.text == "forall", Var: v.text, VarTy: vt, Body: body}
+		if w := ps.peek(); w.kind == "id" && w.text == "witness" && !q.Forall {
+			ps.next()
+			q.Witness = ps.expr(0)
+		}
+		return q
 	}
 	return ps.postfix(ps.primary())
 }
@@ -425,7 +431,11 @@ func stripParens(e Expr) Expr {
 	case ECond:
 		return ECond{stripParens(x.C), stripParens(x.A), stripParens(x.B)}
 	case EQuant:
-		return EQuant{x.Forall, x.Var, x.VarTy, stripParens(x.Body)}
+		q := EQuant{Forall: x.Forall, Var: x.Var, VarTy: x.VarTy, Body: stripParens(x.Body)}
+		if x.Witness != nil {
+			q.Witness = stripParens(x.Witness)
+		}
+		return q
 	case EOld:
 		return EOld{stripParens(x.X)}
 	}
